@@ -1199,7 +1199,7 @@ static void IRP_OutProcessor(void) {
         Tmp               = FirstOutputTag;
         FirstOutputTag    = FirstOutputTag->Next;
         Tmp->Tag->IsEmpty = !Tmp->Tag->Lines;
-        if (IfAsm) {
+        if (IfAsm && (Tmp->Tag->ParCnt > 0)) {
             NextDoLst      = ApplyLstMacroExpMod(DoLst, &LstMacroExpModDefault);
             NextDoLst      = ApplyLstMacroExpMod(NextDoLst, &LstMacroExpModOverride);
             Tmp->Tag->Next = FirstInputTag;
